@@ -88,6 +88,9 @@ func (h *handshake) Start(node gen.NodeHandshake, conn net.Conn, options gen.Han
 	if ok == false {
 		return result, fmt.Errorf("malformed handshake Accept message")
 	}
+	if accept.PoolSize < 1 || accept.PoolSize > maxPoolSize {
+		return result, fmt.Errorf("malformed handshake Accept message (pool size %d)", accept.PoolSize)
+	}
 
 	// waiting for Intro message
 	v, tail, err = h.readMessage(conn, time.Second, tail)
